@@ -617,3 +617,61 @@ Proof.
       * rewrite find_val_cons_lt in Hf by auto. discriminate.
       * rewrite find_val_cons_gt in Hf by auto. right. auto.
 Qed.
+
+(* ------------------------------------------------------------------------------------------------ counts, equality *)
+Theorem size_abs : forall t, size_t t = Z.of_nat (length (abs_t t)).
+Proof.
+  apply (trie_sibs_ind (fun t => size_t t = Z.of_nat (length (abs_t t)))
+                       (fun l => size_t (Node l) = Z.of_nat (length (abs_t (Node l))))); auto.
+  intros x w c r Hc Hr. rewrite size_node_cons, Hc, Hr.
+  change (abs_t (Node ((x, w, c) :: r))) with ((([x], w) :: map (fun p => (x :: fst p, snd p)) (abs_t c)) ++ abs_t (Node r)).
+  rewrite app_length. cbn [length]. rewrite map_length, Nat2Z.inj_add, Nat2Z.inj_succ.
+  replace (1 + Z.of_nat (length (abs_t c))) with (Z.succ (Z.of_nat (length (abs_t c)))) by lia. reflexivity.
+Qed.
+
+Lemma height_is_cdim l K : agree l K -> height_t (Node l) = cdim K.
+Proof.
+  intros [Hwf Ha].
+  apply (attained_is_cdim (mk l (height_t (Node l)) false) K).
+  - split; [split; auto|]. intros t Ht Hf. cbn [tree dim_ub] in *. apply find_height; auto.
+  - unfold lb_ok. cbn [dim_ub]. apply height_lb.
+  - unfold dim_attained. cbn [tree dim_ub]. destruct l as [|e l'] eqn:E; [left; split; reflexivity|].
+    right. rewrite <- E in *. apply height_witness; auto. rewrite E; congruence.
+Qed.
+
+(* operator== against a tree rebuilt from the enumeration is true after every refined history (repaired), and
+   against an empty tree exactly when the abstract complex is empty *)
+Theorem equality_over_histories ops :
+  forallb refined_op ops = true -> ok_history ops = true ->
+  eq_rebuilt (run true ops) = true /\
+  (eq_empty (run true ops) = true <-> forall t, t <> [] -> lookup (spec_run ops) t = None).
+Proof.
+  intros Hp Hok.
+  destruct (dimension_exact ops Hp Hok) as [_ Hd].
+  destruct (history_refines true ops Hp Hok) as (Hwf & Ha & _).
+  pose proof (height_is_cdim _ _ (conj Hwf Ha)) as Hh.
+  set (st := run true ops) in *. set (K := spec_run ops) in *.
+  assert (Heq : eq_rebuilt st = true).
+  { unfold eq_rebuilt, exact_dim. destruct (dirty st) eqn:Ed; [cbn; rewrite andb_false_r; reflexivity|].
+    rewrite Hd, Hh by auto. rewrite Z.eqb_refl. reflexivity. }
+  split; auto. unfold eq_empty. split.
+  - intros H t Ht. apply andb_true_iff in H as [_ Hn]. rewrite <- Ha by auto.
+    destruct (tree st); [apply find_val_nil_l | discriminate].
+  - intro Hnone.
+    assert (Hnil : tree st = []).
+    { destruct (tree st) as [|e l'] eqn:E; auto. exfalso.
+      destruct (nonnil_vertex (tree st)) as (x & Hx); [rewrite E; congruence|].
+      rewrite E in Hx. rewrite Ha in Hx by congruence. apply Hx. apply Hnone. congruence. }
+    rewrite Hnil. cbn [is_nil]. rewrite andb_true_r.
+    destruct (dirty st) eqn:Ed; [cbn; rewrite andb_false_r; reflexivity|].
+    rewrite Hd by auto.
+    assert (cdim K = -1).
+    { apply Z.le_antisymm; [|apply cdim_lb]. apply cdim_le; [lia|]. intros t v Hin.
+      destruct t as [|z t']; [unfold sdim; cbn; lia|]. exfalso.
+      apply in_lookup in Hin. apply Hin. apply Hnone. congruence. }
+    rewrite H. reflexivity.
+Qed.
+
+(* num_simplices = number of simplices of the abstract complex of the tree *)
+Theorem num_simplices_is_cardinal l : wf l -> size_t (Node l) = Z.of_nat (length (keys (abs l))) /\ NoDup (keys (abs l)).
+Proof. intro H. split; [unfold keys, abs; rewrite map_length; apply size_abs | apply nodup_abs; auto]. Qed.
